@@ -215,8 +215,9 @@ def run(ctx):
         level_note="partial: graph theorems proved; allocator-level statement measured"))
 
     for key, det in sorted(fails.items()):
-        if key == "divert-target-cache-cycle" and len(det["source"]) > len(WITNESS) and wit_leak:
-            det = dict(det, program="fixed:witness-loop", source=WITNESS, history=[0, 0],
+        if key == "divert-target-cache-cycle" and wit_leak:
+            det = dict(det, shortest_other=dict(program=det["program"], source=det["source"][:400], history=det["history"]),
+                       program="fixed:witness-loop", source=WITNESS, history=[0, 0],
                        bytes_per_cycle=wit[0]["steady_growth"], live=wit[0]["live"],
                        model=pred.get("fixed:witness-loop", {}).get("line"), minimal=MINIMAL)
         ctx.violation("%s: %s leaks %s bytes per %s cycle (history %s); model: %s" %
